@@ -20,6 +20,11 @@ import PromVerif.Model.ParseCore
 import PromVerif.Generated.OMParse
 import PromVerif.Generated.Utils
 
+/-- `cs!"abc"` is the list literal `['a', 'b', 'c']` (a `Str` constant that proofs can compute with cheaply) -/
+macro:max "cs!" s:str : term => do
+  let elems ← s.getString.toList.mapM (fun c => `($(Lean.Syntax.mkCharLit c)))
+  `([$(elems.toArray),*])
+
 namespace PromVerif.Model.OMParse
 open PromVerif.Py PromVerif.Model.Validation PromVerif.Model.ParseCore PromVerif.Generated.OMParse
 
@@ -123,24 +128,24 @@ deriving Repr, DecidableEq
 
 /-! ## small Python helpers -/
 
-def sName : Str := "__name__".toList
-def sBucket : Str := "_bucket".toList
-def sCount : Str := "_count".toList
-def sGcount : Str := "_gcount".toList
-def sSum : Str := "_sum".toList
-def sGsum : Str := "_gsum".toList
-def sLe : Str := "le".toList
-def sQuantile : Str := "quantile".toList
-def sNaN : Str := "NaN".toList
-def tHistogram : Str := "histogram".toList
-def tGaugeHistogram : Str := "gaugehistogram".toList
-def tInfo : Str := "info".toList
-def tSummary : Str := "summary".toList
-def tStateset : Str := "stateset".toList
-def tCounter : Str := "counter".toList
-def tUnknown : Str := "unknown".toList
-def sTotal : Str := "_total".toList
-def sEOF : Str := "# EOF".toList
+def sName : Str := cs!"__name__"
+def sBucket : Str := cs!"_bucket"
+def sCount : Str := cs!"_count"
+def sGcount : Str := cs!"_gcount"
+def sSum : Str := cs!"_sum"
+def sGsum : Str := cs!"_gsum"
+def sLe : Str := cs!"le"
+def sQuantile : Str := cs!"quantile"
+def sNaN : Str := cs!"NaN"
+def tHistogram : Str := cs!"histogram"
+def tGaugeHistogram : Str := cs!"gaugehistogram"
+def tInfo : Str := cs!"info"
+def tSummary : Str := cs!"summary"
+def tStateset : Str := cs!"stateset"
+def tCounter : Str := cs!"counter"
+def tUnknown : Str := cs!"unknown"
+def sTotal : Str := cs!"_total"
+def sEOF : Str := cs!"# EOF"
 
 /-- `-1` for "not found" -/
 def optIdx : Option Nat → Int
@@ -370,7 +375,7 @@ def parseRemainingText (P : Params) (text : Str) : PyM (Num × Option OTs × Opt
 
 /-! ## `_parse_sample` -/
 
-def sepHash : Str := " # ".toList
+def sepHash : Str := cs!" # "
 
 /-- name taken out of the labels when the text before `{` is empty -/
 def nameFromLabels (name : Str) (labels : Labels) : PyM (Str × Labels) :=
@@ -498,8 +503,8 @@ def findKeyedLists (keys : List Str) (item : Str → Option (Str × Str)) : Nat 
     | some (k, body, rest) => (k, body) :: findKeyedLists keys item fuel rest
     | none => findKeyedLists keys item fuel cs
 
-def spanKeys : List Str := ["positive_spans".toList, "negative_spans".toList]
-def deltaKeys : List Str := ["positive_deltas".toList, "negative_deltas".toList]
+def spanKeys : List Str := [cs!"positive_spans", cs!"negative_spans"]
+def deltaKeys : List Str := [cs!"positive_deltas", cs!"negative_deltas"]
 
 /-- `_compose_spans(span_matches, spans_name)`: EVERY match is converted (each may raise), then one is looked up -/
 def composeSpans (P : Params) (ms : List (Str × Str)) (name : Str) : PyM (Option (List (Int × Int))) := do
@@ -537,15 +542,15 @@ def parseNhStruct (P : Params) (text : Str) : PyM NatHist := do
   let items := findItems P (text.length + 1) text
   let spanMatches := findKeyedLists spanKeys (matchPair P) (text.length + 1) text
   let deltas := findKeyedLists deltaKeys (matchSigned P) (text.length + 1) text
-  let count ← P.intE (← itemGet items "count".toList)
-  let sum ← P.intE (← itemGet items "sum".toList)
-  let schema ← P.intE (← itemGet items "schema".toList)
-  let zt ← P.floatE (← itemGet items "zero_threshold".toList)
-  let zc ← P.intE (← itemGet items "zero_count".toList)
-  let ps ← composeSpans P spanMatches "positive_spans".toList
-  let ns ← composeSpans P spanMatches "negative_spans".toList
-  let pd ← composeDeltas P deltas "positive_deltas".toList
-  let nd ← composeDeltas P deltas "negative_deltas".toList
+  let count ← P.intE (← itemGet items cs!"count")
+  let sum ← P.intE (← itemGet items cs!"sum")
+  let schema ← P.intE (← itemGet items cs!"schema")
+  let zt ← P.floatE (← itemGet items cs!"zero_threshold")
+  let zc ← P.intE (← itemGet items cs!"zero_count")
+  let ps ← composeSpans P spanMatches cs!"positive_spans"
+  let ns ← composeSpans P spanMatches cs!"negative_spans"
+  let pd ← composeDeltas P deltas cs!"positive_deltas"
+  let nd ← composeDeltas P deltas cs!"negative_deltas"
   pure ⟨count, sum, schema, zt, zc, ps, ns, pd, nd⟩
 
 /-! ## `_parse_nh_sample` -/
@@ -795,20 +800,24 @@ def parseLine (P : Params) (line : Str) : Line :=
 /-- `type_suffixes.get(typ, []) + [""]` as a set -/
 def familySuffixes (typ : Str) : List Str := (((lookupTable typ typeSuffixes).getD []) ++ [[]]).eraseDups
 
+/-- the tests of `build_metric` (and of `Metric.__init__`, called last), in source order; they are independent -/
+def buildChecks (P : Params) (seen : List Str) (name typ unit : Str) (samples : List OSample) : List (PyM Unit) :=
+  [ raiseIf (((familySuffixes typ).map (name ++ ·)).any (seen.contains ·)),
+    raiseIf (!unit.isEmpty && !endsWith ('_' :: unit) name),
+    raiseIf (!unit.isEmpty && unitForbidden.contains typ),
+    (if histTypes.contains typ then checkHistogram P samples name else .ok ()),
+    validateMetricName P.legacy name,
+    raiseIf (!metricTypes.contains typ) ]
+
 /-- `build_metric(name, documentation, typ, unit, samples)`; returns the updated globals -/
-def buildMetric (P : Params) (g : Glob) (name : Str) (doc typ unit : Option Str) (samples : List OSample) : PyM Glob := do
+def buildMetric (P : Params) (g : Glob) (name : Str) (doc typ unit : Option Str) (samples : List OSample) : PyM Glob :=
   let typ := typ.getD tUnknown
-  let names := (familySuffixes typ).map (name ++ ·)
-  raiseIf (names.any (g.seenNames.contains ·))
-  let doc := doc.getD []
   let unit := unit.getD []
-  raiseIf (!unit.isEmpty && !endsWith ('_' :: unit) name)
-  raiseIf (!unit.isEmpty && unitForbidden.contains typ)
-  if histTypes.contains typ then checkHistogram P samples name
-  validateMetricName P.legacy name
-  -- Metric.__init__
-  raiseIf (!metricTypes.contains typ)
-  pure { seenNames := g.seenNames ++ names, out := g.out ++ [⟨name, doc, typ, unit, samples⟩] }
+  match runChecks (buildChecks P g.seenNames name typ unit samples) with
+  | .error e => .error e
+  | .ok _ =>
+    .ok { seenNames := g.seenNames ++ (familySuffixes typ).map (name ++ ·),
+          out := g.out ++ [⟨name, doc.getD [], typ, unit, samples⟩] }
 
 /-- `if name is not None: yield build_metric(...)` -/
 def flush (P : Params) (g : Glob) (h : Hdr) (samples : List OSample) : PyM Glob :=
